@@ -413,6 +413,28 @@ func judgeDoc(c *fw.Ctx, dc *docCase) {
 	} else if !bytes.Equal(e1, e2) {
 		c.Rec.Violation("encoding-not-stable", "", fmt.Sprintf("document (%s; %s): second encoding differs from the first", dc.Base, strings.Join(dc.Muts, "; ")), cj, det)
 	}
+	// history: the encoding of an already decoded value must not depend on what else is decoded meanwhile.
+	// Decode siblings of this document whose crs (and bounding box crs) is written in the other URI form
+	// (plain string <-> {"uri": ...}), then encode the first value again.
+	if sib := crsSiblings(dc.Doc); len(sib) > 0 {
+		var e3 []byte
+		func() {
+			defer func() { pan = recover() }()
+			for _, sd := range sib {
+				var other tms20.TileMatrixSet
+				_ = json.Unmarshal([]byte(sd), &other)
+			}
+			e3, err = json.Marshal(&v1)
+		}()
+		c.Rec.Count("history:sibling_documents_decoded_between_encodings")
+		if pan != nil || err != nil || !bytes.Equal(e1, e3) {
+			c.Rec.Violation("encoding-depends-on-other-decodes", "", fmt.Sprintf("document (%s; %s): after decoding a sibling document that writes the same crs uri in the other form, the already decoded value encodes differently (panic=%v err=%v)", dc.Base, strings.Join(dc.Muts, "; "), pan, err), cj,
+				map[string]any{"encoding_before": string(e1), "encoding_after": string(e3), "siblings": sib})
+		}
+		// put the forms back as this document has them, so later cases start from the same state as a fresh process would
+		var again tms20.TileMatrixSet
+		_ = json.Unmarshal([]byte(dc.Doc), &again)
+	}
 	if len(dc.Muts) == 0 && dc.Base != "" {
 		// built-in (or synthetic) document: the re-encoded JSON equals the original as a JSON value
 		var a, b any
@@ -429,6 +451,69 @@ func judgeDoc(c *fw.Ctx, dc *docCase) {
 }
 
 func panicSig(dc *docCase, pan any) string { return "" }
+
+// crsSiblings: variants of the document in which every crs given as a URI is written in the other form.
+func crsSiblings(doc string) []string {
+	var d any
+	if json.Unmarshal([]byte(doc), &d) != nil {
+		return nil
+	}
+	root, ok := d.(map[string]any)
+	if !ok {
+		return nil
+	}
+	toggled := 0
+	toggle := func(m map[string]any) {
+		switch c := m["crs"].(type) {
+		case string:
+			m["crs"] = map[string]any{"uri": c}
+			toggled++
+		case map[string]any:
+			if u, ok := c["uri"].(string); ok && len(c) == 1 {
+				m["crs"] = u
+				toggled++
+			}
+		}
+	}
+	toggle(root)
+	if bb, ok := root["boundingBox"].(map[string]any); ok {
+		toggle(bb)
+	}
+	if toggled == 0 {
+		return nil
+	}
+	b, _ := json.Marshal(root)
+	return []string{string(b)}
+}
+
+// checkEmbeddedStillOriginal: the values the package hands out for built-in sets must still re-encode to their documents,
+// whatever was decoded in this process before (they are cached pointers).
+func checkEmbeddedStillOriginal(c *fw.Ctx) {
+	for _, name := range builtinNames {
+		t, err := tms20.LoadEmbeddedTileMatrixSet(name)
+		if err != nil {
+			continue
+		}
+		orig, err := readFileBytes(repoTMSPath(name))
+		if err != nil {
+			continue
+		}
+		var e []byte
+		var pan any
+		func() {
+			defer func() { pan = recover() }()
+			e, err = json.Marshal(&t)
+		}()
+		c.Rec.Count("history:embedded_sets_re-encoded_after_other_decodes")
+		var a, b any
+		_ = json.Unmarshal(orig, &a)
+		_ = json.Unmarshal(e, &b)
+		if d := jsonDiff(a, b, ""); pan != nil || err != nil || d != "" {
+			cj, _ := json.Marshal(docCase{Base: name, Muts: []string{"(embedded set after " + fmt.Sprint(c.Idx) + " other documents of this worker)"}, Doc: string(orig)})
+			c.Rec.Violation("embedded-set-no-longer-equals-its-document", "", fmt.Sprintf("built-in %s, loaded through LoadEmbeddedTileMatrixSet after other documents were decoded in the same process, re-encodes differently from its document: %s (panic=%v err=%v)", name, d, pan, err), cj, map[string]any{"encoding": string(e)})
+		}
+	}
+}
 
 // semEqual: deep equality that reads unexported fields and treats nil and empty slices/maps as equal
 // (an empty list and an absent list are the same value semantically; omitempty drops both).
@@ -603,7 +688,7 @@ func genDocCase(rng *fw.Rng, idx int64) *docCase {
 
 func init() {
 	fw.Register(&fw.Prop{
-		ID: "C16", Cases: tierN(120000, 2500000),
+		ID: "C16", Cases: tierN(80000, 2000000),
 		Run: func(c *fw.Ctx) {
 			dc := genDocCase(c.Rng, c.Idx)
 			if dc == nil {
@@ -611,6 +696,9 @@ func init() {
 				return
 			}
 			judgeDoc(c, dc)
+			if c.Idx%2000 < 16 { // each worker, every 2000 cases
+				checkEmbeddedStillOriginal(c)
+			}
 		},
 		Replay: func(c *fw.Ctx, raw json.RawMessage) {
 			var dc docCase
@@ -624,9 +712,9 @@ func init() {
 			}
 			judgeDoc(c, &dc)
 		},
-		Rule: "the 14 built-in documents + one synthetic document using every optional member, unmodified and under 1-3 composed structural mutations (delete member, replace by another JSON kind, numeric/string edge values, drop/duplicate/extend array elements, unknown members, CRS swapped among URI string / URI object / wkt / referenceSystem forms); every document that decodes: encode, decode again, DeepEqual of the two values incl. dynamic CRS type, second encoding byte-identical; unmodified documents: re-encoded JSON semantically equal to the file; documents in a demanded-reject class (independent predicate on the JSON tree: crs or tileMatrices missing/null/wrong kind/empty, typed member of another JSON kind, sizes/cell size/scale <= 0, non-integer id) must return an error; no document may panic; non-trivial = document that decodes or falls in a demanded class; distinct by document text",
+		Rule: "the 14 built-in documents + one synthetic document using every optional member, unmodified and under 1-3 composed structural mutations (delete member, replace by another JSON kind, numeric/string edge values, drop/duplicate/extend array elements, unknown members, CRS swapped among URI string / URI object / wkt / referenceSystem forms); every document that decodes: encode, decode again, DeepEqual of the two values incl. dynamic CRS type, second encoding byte-identical; unmodified documents: re-encoded JSON semantically equal to the file; documents in a demanded-reject class (independent predicate on the JSON tree: crs or tileMatrices missing/null/wrong kind/empty, typed member of another JSON kind, sizes/cell size/scale <= 0, non-integer id) must return an error; no document may panic; history clauses: after a sibling document with the same crs uri in the other form (string <-> object) is decoded, the first value must still encode as before, and the embedded built-in sets handed out by LoadEmbeddedTileMatrixSet must still re-encode to their documents after thousands of other decodes in the same process; non-trivial = document that decodes or falls in a demanded class; distinct by document text",
 		Required: func(string) []string {
-			return []string{"decoded", "rejected_with_error", "demanded_reject_documents", "original_documents_compared", "crs_form:URICRS", "crs_form:URICRS-as-string", "crs_form:WKTCRS", "crs_form:ReferenceSystemCRS"}
+			return []string{"history:sibling_documents_decoded_between_encodings", "history:embedded_sets_re-encoded_after_other_decodes", "decoded", "rejected_with_error", "demanded_reject_documents", "original_documents_compared", "crs_form:URICRS", "crs_form:URICRS-as-string", "crs_form:WKTCRS", "crs_form:ReferenceSystemCRS"}
 		},
 		MinNonTriv:  1000,
 		Assumptions: []string{"accept/reject is demanded only for the classes the statement names; null for an optional member, fractional sizes, duplicate ids, short arrays and unknown members carry no demand", "value equality = deep equality of tms20.TileMatrixSet incl. unexported CRS fields, nil and empty lists/maps being equal"},
